@@ -91,6 +91,7 @@ func init() {
 		"time.now":              func(fr *frame, a []value) value { return tuple{int64(1700000000), int32(0), int64(0)} },
 		"time.runtimeNano":      func(fr *frame, a []value) value { return int64(0) },
 		"os.Getpid":             func(fr *frame, a []value) value { return 4242 },
+		"os.Getwd":              func(fr *frame, a []value) value { return tuple{"/host", iface{}} },
 		"os.Getenv":             func(fr *frame, a []value) value { return "" },
 		"os.LookupEnv":          func(fr *frame, a []value) value { return tuple{"", false} },
 		"syscall.Getenv":        func(fr *frame, a []value) value { return tuple{"", false} },
